@@ -919,6 +919,9 @@ fn field_of(err: &str) -> String {
 fn project(dir: &Path, toml_text: &str) {
     let _ = std::fs::remove_dir_all(dir);
     std::fs::create_dir_all(dir.join("src")).unwrap();
+    // bases for the `extends` documents
+    std::fs::write(dir.join("base.toml"), "version = \"2\"\n[content]\nmax_lines = 300\n").unwrap();
+    std::fs::write(dir.join("base3.toml"), "version = \"3\"\n[content]\nmax_lines = 300\n").unwrap();
     std::fs::write(dir.join("src/a.rs"), "fn a() {}\nfn b() {}\n").unwrap();
     std::fs::write(dir.join(".sloc-guard.toml"), toml_text).unwrap();
 }
@@ -1064,6 +1067,13 @@ fn toml_level_case(sink: &mut Sink, rng: &mut Rng, bin: &str, scratch: &str) {
         ("version-1", "version = \"1\"\n[content]\nmax_lines = 100\n", true),
         ("version-int", "version = 2\n[content]\nmax_lines = 100\n", true),
         ("version-absent", "[content]\nmax_lines = 100\n", false),
+        ("version-3-extends-preset", "version = \"3\"\nextends = \"preset:rust-strict\"\n", true),
+        ("version-1-extends-preset", "version = \"1\"\nextends = \"preset:node-strict\"\n[content]\nmax_lines = 100\n", true),
+        ("version-3-extends-local", "version = \"3\"\nextends = \"base.toml\"\n", true),
+        // the child's `version` overrides the base's in the merge: the effective configuration is version 2
+        ("version-2-extends-local-v3", "version = \"2\"\nextends = \"base3.toml\"\n", false),
+        ("version-3-reset-marker", "version = \"3\"\n[content]\nextensions = [\"$reset\", \"rs\"]\n", true),
+        ("version-2-extends-local", "version = \"2\"\nextends = \"base.toml\"\n", false),
         ("max-lines-string", "version = \"2\"\n[content]\nmax_lines = \"100\"\n", true),
         ("max-lines-negative", "version = \"2\"\n[content]\nmax_lines = -1\n", true),
         ("max-lines-float", "version = \"2\"\n[content]\nmax_lines = 100.5\n", true),
